@@ -242,8 +242,8 @@ def rule_block_driver(check):
         if p.unknown:
             check.bad(R, R + "/unanalysable", hir.loc(f.rec), "; ".join(p.unknown))
             continue
-        entry_cancel = any((hir.cond_call(c) or [None])[0] == "visit_is_cancelled" and hir.cond_call(c)[3] for c in p.conds)
-        cancels = any(e["kind"] == "call" and e["name"] == "cancel_visit" for e in p.effects)
+        entry_cancel = any(T.cond_cancelled(prog, c) for c in p.conds)
+        cancels = any(T.effect_cancels(prog, e) for e in p.effects)
         opv = [i for i, e in enumerate(p.effects) if e["kind"] == "children" and e["ap"] == () and e["vty"].endswith(OPV)]
         own = [i for i, e in enumerate(p.effects) if e["kind"] in ("children",) and e["ap"] == () and e["vty"].endswith(BTV)]
         cs = T.path_conds_str(p)
